@@ -6,7 +6,9 @@
 // Abstract: sig_ok (signature verification, aws-lc), ski_of (SHA-1 key identifier), the instants
 // of Time, the address / AS-number sets of IpBlocks / AsBlocks.  Callee contracts taken from other
 // units through contract links (//@stub): Validity::verify_at (unit validity), IpBlocks /
-// AsBlocks::{verify_issued, empty} (unit res_sets).  The latter require the resource chains to be in
+// AsBlocks::{verify_issued, empty} (unit res_sets), SignedData::verify_signature and
+// PublicKey::key_identifier (unit key_verify, which DEFINES sig_ok / ski_of over the real PublicKey::verify).
+// The res_sets contracts require the resource chains to be in
 // canonical form (`ip_wf` / `as_wf`, established by decoding through FromIterator): `cert_res_wf` of the
 // certificate and `rc_wf` of the issuer are preconditions of the issued-certificate functions, and
 // `rc_wf` of the result is a postcondition, so the condition is handed down the validation chain.
@@ -25,6 +27,8 @@ verus! {
 /// bcder::Captured
 #[verifier::external_body]
 pub struct Captured { _o: u8 }
+/// the captured octets (same view as shared/cms_vocab.v.rs and unit key_verify)
+pub uninterp spec fn captured_view(c: Captured) -> Seq<u8>;
 /// bytes::Bytes
 #[verifier::external_body]
 pub struct Bytes { _o: u8 }
@@ -124,10 +128,18 @@ pub uninterp spec fn as_issued_blocks(issuer: AsBlocks, res: AsResources, mode: 
 // =================================================================================================
 // specification vocabulary
 // =================================================================================================
-/// abstract: signature verification of the signed data under a key (aws-lc, incl. the algorithm match)
-pub uninterp spec fn sig_ok(key: PublicKey, signed: SignedData) -> bool;
-/// abstract: the SHA-1 key identifier of a public key
-pub uninterp spec fn ski_of(key: PublicKey) -> KeyIdentifier;
+// `sig_ok(key, msg, sig)`: the signature (algorithm identifier and value) over the octets `msg` verifies
+// under `key` -- abstract here, DEFINED in unit key_verify (format match && aws-lc primitive), which proves
+// the linked contract of SignedData::verify_signature
+//@include shared/sig_vocab.v.rs
+impl SignatureAlgorithm for RpkiSignatureAlgorithm { }
+// `ski_of(key)`: the SHA-1 key identifier of a public key -- abstract here, DEFINED in unit key_verify,
+// which proves the linked contract of PublicKey::key_identifier
+//@include shared/ski_vocab.v.rs
+/// signature verification of X.509 signed data under a key: over its captured (to-be-signed) octets
+pub open spec fn signed_ok(key: PublicKey, signed: SignedData) -> bool {
+    sig_ok(key, captured_view(signed.data), signed.signature)
+}
 /// abstract: Name::inspect_rpki accepts the name
 pub uninterp spec fn name_rpki_ok(n: Name, strict: bool) -> bool;
 
@@ -167,7 +179,7 @@ pub open spec fn issuer_claim_ok(c: Cert, issuer: ResourceCert) -> bool {
 pub open spec fn issued_basic_ok(c: Cert, issuer: ResourceCert, now: Time) -> bool {
     in_window(c.tbs.validity, tat(now))
     && issuer_claim_ok(c, issuer)
-    && sig_ok(issuer.cert.tbs.subject_public_key_info, c.signed_data)
+    && signed_ok(issuer.cert.tbs.subject_public_key_info, c.signed_data)
 }
 /// all three resource sets can be issued
 pub open spec fn resources_ok(c: Cert, issuer: ResourceCert) -> bool {
@@ -233,7 +245,7 @@ pub open spec fn ta_ok(c: Cert, now: Time) -> bool {
     in_window(c.tbs.validity, tat(now))
     && !ip_inherited(c.tbs.v4_resources) && !ip_inherited(c.tbs.v6_resources)
     && !as_inherited(c.tbs.as_resources)
-    && sig_ok(c.tbs.subject_public_key_info, c.signed_data)
+    && signed_ok(c.tbs.subject_public_key_info, c.signed_data)
 }
 
 /// the validated trust anchor carries the certificate, its own claimed resources and the TAL
@@ -279,21 +291,19 @@ impl Validity {
     //@end
 }
 
-impl SignedData {
-    /// assumed: SignedData::verify_signature = PublicKey::verify over the captured octets
-    /// (aws-lc FFI behind crypto::keys): Ok exactly when the signature verifies under the key
-    #[verifier::external_body]
+impl<Alg: SignatureAlgorithm> SignedData<Alg> {
+    /// contract link: proved in unit key_verify (= PublicKey::verify over the captured octets; PublicKey::verify
+    /// itself is proved there down to the aws-lc primitives), text taken from there
+    //@stub key_verify :: verify_signature
     pub fn verify_signature(&self, public_key: &PublicKey) -> (r: Result<(), SignatureVerificationError>)
-        ensures r.is_ok() <==> sig_ok(*public_key, *self)
-    { unimplemented!() }
+    //@end
 }
 
 impl PublicKey {
-    /// assumed: SHA-1 over the key bits (aws-lc digest)
-    #[verifier::external_body]
+    /// contract link: proved in unit key_verify (SHA-1 over the key bits, both unwrap()s panic-free)
+    //@stub key_verify :: impl PublicKey :: key_identifier
     pub fn key_identifier(&self) -> (r: KeyIdentifier)
-        ensures r == ski_of(*self)
-    { unimplemented!() }
+    //@end
 }
 
 impl Name {
@@ -775,7 +785,7 @@ impl Cert {
 
     //@fn src/repository/cert.rs :: impl Cert :: verify_signature
     //@spec
-        ensures r.is_ok() <==> sig_ok(issuer.tbs.subject_public_key_info, self.signed_data),
+        ensures r.is_ok() <==> signed_ok(issuer.tbs.subject_public_key_info, self.signed_data),
     //@/spec
     //@end
 
@@ -871,7 +881,7 @@ pub proof fn lemma_acceptance_requires(c: Cert, issuer: ResourceCert, now: Time,
         (inspect_ca_ok(c, strict) || inspect_ee_ok(c, strict) || inspect_detached_ee_ok(c, strict) || inspect_router_ok(c, strict)),
         issued_basic_ok(c, issuer, now),
     ensures
-        sig_ok(issuer.cert.tbs.subject_public_key_info, c.signed_data),
+        signed_ok(issuer.cert.tbs.subject_public_key_info, c.signed_data),
         tat(c.tbs.validity.not_before) <= tat(now) <= tat(c.tbs.validity.not_after),
         c.tbs.authority_key_identifier == Some(issuer.cert.tbs.subject_key_identifier),
         c.tbs.subject_key_identifier == ski_of(c.tbs.subject_public_key_info),
@@ -881,7 +891,7 @@ pub proof fn lemma_acceptance_requires(c: Cert, issuer: ResourceCert, now: Time,
 /// containing issued_basic_ok, that of verify_*_at likewise; each conjunct is necessary)
 pub proof fn lemma_single_point_change(c: Cert, issuer: ResourceCert, now: Time)
     ensures
-        !sig_ok(issuer.cert.tbs.subject_public_key_info, c.signed_data) ==> !issued_basic_ok(c, issuer, now),
+        !signed_ok(issuer.cert.tbs.subject_public_key_info, c.signed_data) ==> !issued_basic_ok(c, issuer, now),
         tat(now) < tat(c.tbs.validity.not_before) ==> !issued_basic_ok(c, issuer, now),
         tat(now) > tat(c.tbs.validity.not_after) ==> !issued_basic_ok(c, issuer, now),
         c.tbs.authority_key_identifier != Some(issuer.cert.tbs.subject_key_identifier) ==> !issued_basic_ok(c, issuer, now),
@@ -897,7 +907,7 @@ pub proof fn lemma_single_point_change(c: Cert, issuer: ResourceCert, now: Time)
 pub proof fn lemma_ta_requires(c: Cert, now: Time)
     requires ta_ok(c, now),
     ensures
-        sig_ok(c.tbs.subject_public_key_info, c.signed_data),
+        signed_ok(c.tbs.subject_public_key_info, c.signed_data),
         !(c.tbs.v4_resources.0 is Inherit), !(c.tbs.v6_resources.0 is Inherit), !(c.tbs.as_resources.0 is Inherit),
         tat(c.tbs.validity.not_before) <= tat(now) <= tat(c.tbs.validity.not_after),
 {}
